@@ -1,4 +1,5 @@
 import InfluxQL.Lemmas.Columns
+import InfluxQL.Model.ColumnsOfStmt
 /-!
 # C20 — result column names are complete, stable and unambiguous
 
@@ -182,6 +183,56 @@ theorem distinct (s : SelectStmt) (out : List Str) (h : s.columnNames = some out
   have hal' : (aliasesOf (columns s)).Pairwise (· ≠ ·) := by
     unfold columns; rw [aliasesOf_columnFields]; exact hal
   exact (nameLoop_distinct (columns s) _ ns hn (aliasPass_keys [] (columns s)).2 hal').1
+
+/-! ## End to end from the statement text (`columnsOfText` = `ParseStatement`, the two settings, `ColumnNames`)
+
+Executed against the implementation by the stream `columns.text`. -/
+
+theorem withTimeSettings_fields (s : SelectStmt) (o : Bool) (ta : Str) :
+    (s.withTimeSettings o ta).fields = s.fields ∧ (s.withTimeSettings o ta).target = s.target ∧
+    (s.withTimeSettings o ta).omitTime = o ∧ (s.withTimeSettings o ta).timeAlias = ta := by
+  cases s; exact ⟨rfl, rfl, rfl, rfl⟩
+
+/-- What the composition computes: when the text parses to a SELECT `s`, the names are `ColumnNames` of
+the field list and INTO target the parser built, under the caller's two settings — nothing else of
+the text matters (sources, conditions, grouping, limits). -/
+theorem columns_text_eq (text : Str) (params : List (Str × BoundValue)) (tbl : List (Char × Char))
+    (o : Bool) (ta : Str) (s : SelectStmt) (hp : parseStatementText text params tbl = .ok (.select s)) :
+    ∃ out, columnNamesOf s.fields s.target.isSome o ta = some out ∧ columnsOfText text params tbl o ta = .ok out := by
+  obtain ⟨h1, h2, h3, h4⟩ := withTimeSettings_fields s o ta
+  obtain ⟨out, ho⟩ := columnNames_total (s.withTimeSettings o ta)
+  refine ⟨out, ?_, ?_⟩
+  · rw [← ho]; unfold SelectStmt.columnNames; rw [h1, h2, h3, h4]
+  · unfold columnsOfText; rw [hp]; simp only [ho]
+
+/-- **C20 end to end (total, complete, time first).** Every text the parser accepts as a SELECT gets a
+column list (the suffix loop never runs out of fuel); the list has one name per output column after the
+time column, and starts with the time column unless it is omitted. -/
+theorem columns_text_total (text : Str) (params : List (Str × BoundValue)) (tbl : List (Char × Char))
+    (o : Bool) (ta : Str) (s : SelectStmt) (hp : parseStatementText text params tbl = .ok (.select s)) :
+    ∃ out, columnsOfText text params tbl o ta = .ok out ∧
+      out.length = (if o then 0 else 1) + (columnFields s.target.isSome s.fields).length ∧
+      (o = false → out.head? = some (if ta ≠ [] then ta else timeLit)) := by
+  obtain ⟨h1, h2, h3, h4⟩ := withTimeSettings_fields s o ta
+  obtain ⟨out, ho⟩ := columnNames_total (s.withTimeSettings o ta)
+  refine ⟨out, by unfold columnsOfText; rw [hp]; simp only [ho], ?_, ?_⟩
+  · have := (columns_length_order _ out ho).1
+    simpa only [offset, columns, h1, h2, h3] using this
+  · intro ho'
+    have := (time_first_unless_omitted _ out ho).1 (by rw [h3]; exact ho')
+    simpa only [h4] using this.1
+
+/-- **C20 end to end (unambiguous).** If the explicit aliases written in the text are pairwise distinct,
+the field column names computed from the text are pairwise distinct. -/
+theorem columns_text_distinct (text : Str) (params : List (Str × BoundValue)) (tbl : List (Char × Char))
+    (o : Bool) (ta : Str) (s : SelectStmt) (hp : parseStatementText text params tbl = .ok (.select s))
+    (hal : (aliasesOf s.fields).Pairwise (· ≠ ·)) :
+    ∃ out, columnsOfText text params tbl o ta = .ok out ∧ (out.drop (if o then 0 else 1)).Pairwise (· ≠ ·) := by
+  obtain ⟨h1, h2, h3, h4⟩ := withTimeSettings_fields s o ta
+  obtain ⟨out, ho⟩ := columnNames_total (s.withTimeSettings o ta)
+  refine ⟨out, by unfold columnsOfText; rw [hp]; simp only [ho], ?_⟩
+  have := distinct _ out ho (by rw [h1]; exact hal)
+  simpa only [offset, h3] using this
 
 /-! ## Non-vacuity and the corner cases of the property text, evaluated by the kernel -/
 
